@@ -65,9 +65,13 @@ class Rec:
         self.labels = []
         self.nontrivial = False
         self.key = None     # optional override of the distinctness key
+        self.counts = {}
 
     def label(self, *names):
         self.labels.extend(names)
+
+    def count(self, name, n):
+        self.counts[name] = self.counts.get(name, 0) + int(n)
 
 
 def jdump(obj):
@@ -192,6 +196,8 @@ def _run_case(mod, sub, case, st, findings, ignored, count=True):
         return v
     for l in rec.labels:
         st.labels[sub.name + ':' + l] += 1
+    for k, n in rec.counts.items():
+        st.labels[sub.name + ':' + k] += n
     if rec.nontrivial:
         h = rec.key if rec.key is not None else case_hash([sub.name, case])
         if h not in st.nontrivial:
